@@ -437,12 +437,22 @@ class GRSession(SessionBase):
         self.scribble_graph(o, chains_intact)
         return 'ok'
 
-    def build_tree(self, spec):
+    def build_tree(self, spec, shared_leaf=None, roots=None):
+        """shared_leaf: one OpTreeNode object used for every leaf (a caller reusing `leaf = OpTreeNode([], 0)`);
+        roots: memo id(spec root) -> built root, so that trees given the same description share their node objects."""
         ptn = self.ptn
 
         def rec(node):
+            if not node['children'] and shared_leaf is not None and node['q'] == 0:
+                return shared_leaf
             return ptn.OpTreeNode([ptn.OpTreeEdge(e['oid'], e['coeff'], rec(e['node'])) for e in node['children']], node['q'])
-        return ptn.OpTree(rec(spec['root']), spec['istart'])
+        if roots is not None and id(spec['root']) in roots:
+            root = roots[id(spec['root'])]
+        else:
+            root = rec(spec['root'])
+            if roots is not None:
+                roots[id(spec['root'])] = root
+        return ptn.OpTree(root, spec['istart'])
 
     def op_from_optrees(self, op):
         ptn = self.ptn
@@ -456,7 +466,20 @@ class GRSession(SessionBase):
         specs = [t for t in specs if t['istart'] + height(t['root']) <= L and t['istart'] < L]
         if not specs:
             return 'skipped'
-        trees = [self.build_tree(t) for t in specs]
+        # the same sub-tree description used with another start site shares its node objects (op['share'])
+        if op.get('share') and len(specs) >= 1:
+            extra = []
+            for t in specs:
+                h = height(t['root'])
+                for ist in range(0, L - h + 1):
+                    if ist != t['istart'] and len(extra) < 2 and (ist + int(op.get('share_sel', 0))) % 2 == 0:
+                        extra.append({'istart': ist, 'root': t['root']})
+            specs = specs + extra
+            if extra:
+                self.probe('tree_objects_shared_between_trees')
+        leaf = ptn.OpTreeNode([], 0) if op.get('share_leaf') else None
+        roots = {} if op.get('share') else None
+        trees = [self.build_tree(t, leaf, roots) for t in specs]
         snap, g, exc = self.guarded(op, lambda: ptn.OpGraph.from_optrees(trees, L, 0), ('C17',))
         self.bystanders_unchanged(snap, set())
         if exc is not None:
@@ -504,6 +527,7 @@ class GRSession(SessionBase):
             aut.add_connect_edge(ptn.AutOpEdge(e['eid'], list(e['nids']), opics, active))
         if ncall:
             self.env.fire('CBCALLS')
+        aut_dump_before = [(e.eid, tuple(e.nids), repr(e.opics) if isinstance(e.opics, list) else repr(e.opics.table)) for e in aut.edges.values()]
         snap, g, exc = self.guarded(op, lambda: ptn.OpGraph.from_automaton(aut, L), ('C17',))
         self.bystanders_unchanged(snap, set())
         bad = [i for i in calls if not (isinstance(i, (int, np.integer)) and 0 <= i < L)]
@@ -516,7 +540,14 @@ class GRSession(SessionBase):
         self.check_graph(o, want, 'C17', 'from_automaton', L)
         if len(g.nodes) - 2 < (len(spec['nodes']) - 2) * (L - 1):
             self.probe('automaton_dead_state_pruned')
-        self.scribble_graph(o)
+
+        def aut_dump():
+            return [(e.eid, tuple(e.nids), repr(e.opics) if isinstance(e.opics, list) else repr(e.opics.table)) for e in aut.edges.values()]
+        before = aut_dump_before
+
+        def automaton_intact():
+            self.check(aut_dump() == before, 'C19', 'result_aliases_argument', 'writing into the unrolled graph changed the operator lists of the automaton')
+        self.scribble_graph(o, automaton_intact)
         return 'ok'
 
     def op_random_layered(self, op):
